@@ -107,12 +107,16 @@ theorem revoke_for_pending_class_refused :
 /-- Counter-model of the pinned tree (before 43d7eca0, F-C04-1): with the class test made on the
 child's name, a mapping to a class this CA does not have made `process` return
 `ChildKeyRevoked` for the unknown class, and `apply` unwrapped `None` (certauth.rs:391-393).
-On the fixed tree the same request is answered with no event. -/
+On the fixed tree the same request is answered with no event.  Since fix 02d8de59 the mapping of
+that history itself (`.childMapping 7 5 0`: a missing class onto the name of the class the child is
+certified under) is refused, so the state is built with the pinned `process` (`Sys.pinnedRun`);
+the last conjunct says the current tree refuses the mapping. -/
 theorem pinned_revoke_under_mapping_panics :
-    let s := Sys.run {} witnessMapped
+    let s := Sys.pinnedRun {} witnessMapped
     s.ca.pinnedRevoke 7 0 6 = .ok [.childKeyRevoked 7 5 6, .childCerts 5 { removed := [6] }] ∧
     s.ca.applyAll [.childKeyRevoked 7 5 6, .childCerts 5 { removed := [6] }] = none ∧
-    s.ca.process (.childRevokeKey 7 0 6) = .ok [] := by decide
+    s.ca.process (.childRevokeKey 7 0 6) = .ok [] ∧
+    (Sys.run {} (witnessMapped.take 6)).exec (.childMapping 7 5 0) = .refused .childNameClash := by decide
 
 /-- Counter-model of the pinned tree (F-C03-1): a revocation request under a mapped class name
 was answered positively and ignored; on the fixed tree it revokes. -/
@@ -408,7 +412,9 @@ theorem revoke_removes_certificate {s s' : Sys} {ch : Handle} {childRcn : Rcn} {
     · simp only [Except.ok.injEq] at hp; exact absurd hp.symm hne
     · rename_i hcls
       split at hp
-      · cases hp
+      · split at hp
+        · simp only [Except.ok.injEq] at hp; exact absurd hp.symm hne
+        · cases hp
       · simp only [Except.ok.injEq] at hp; subst hp
         cases hrc : get s.ca.classes (cd.nameInParent childRcn) with
         | none => simp [hrc] at hcls
